@@ -86,9 +86,8 @@ fn mock() -> MockRW {
     MockRW { data, len, pos: 0, wrote: [0; 4], nwrote: 0, flushes: 0, seen: std::ptr::null_mut() }
 }
 
-#[cfg(kani)]
-#[kani::proof]
-#[kani::unwind(8)]
+#[cfg_attr(kani, kani::proof)]
+#[cfg_attr(kani, kani::unwind(8))]
 pub fn k7_prepended_read() {
     let pre: [u8; 3] = vk::any();
     let plen: usize = vk::any();
@@ -124,9 +123,8 @@ pub fn k7_prepended_read() {
     vk_assert!(out[j] == expect, "[C18.prepend.order] byte out of order, lost or not from the prepended tail first");
 }
 
-#[cfg(kani)]
-#[kani::proof]
-#[kani::unwind(8)]
+#[cfg_attr(kani, kani::proof)]
+#[cfg_attr(kani, kani::unwind(8))]
 pub fn k7_prepended_write() {
     let pre: [u8; 2] = vk::any();
     let mut seen = Seen { wrote: [0; 4], nwrote: 0, flushes: 0 };
@@ -153,9 +151,8 @@ pub fn k7_prepended_write() {
     vk_cover!(wl == 3, "cover: three bytes written");
 }
 
-#[cfg(kani)]
-#[kani::proof]
-#[kani::unwind(8)]
+#[cfg_attr(kani, kani::proof)]
+#[cfg_attr(kani, kani::unwind(8))]
 pub fn k7_switchable_plain() {
     let inner = mock();
     let (idata, ilen) = (inner.data, inner.len);
